@@ -369,6 +369,23 @@ def check_generic(case: t.Any, ctx: Ctx) -> None:
                 ctx.fail('order', 'generic-parameters', f"{ident}: {a!r} of {type(a).__name__}[{list(getattr(type(a), '__pane_boundvars__', {}).values())}] against {b!r} of "
                          f"{type(b).__name__}[{list(getattr(type(b), '__pane_boundvars__', {}).values())}]: (<, <=, >, >=) = {r if k == 'ok' else type(r).__name__}, equality says {want}")
                 return
+        # classes *derived* from a parametrization are classes of their own ("equality compares the class"): two of them with equal
+        # fields are not equal, nor is either equal to an instance of the parametrization or of the generic class; each equals itself
+        with warnings.catch_warnings():
+            warnings.simplefilter('ignore')
+            Cel = type('Celsius', (G[float],), {'__annotations__': {}})
+            Kel = type('Kelvin', (G[float],), {'__annotations__': {}})
+            (c1, c2, k1, q1, g1) = (Cel(1.0), Cel(1.0), Kel(1.0), G[float](1.0), G(1.0))
+        ctx.evaluated()
+        facts = outcome(lambda: (c1 == c2, c1 == k1, k1 == c1, c1 == q1, q1 == k1, g1 == c1, c1 != k1))
+        if facts != ('ok', (True, False, False, False, False, False, True)):
+            ctx.fail('equality', 'derived-from-parametrization', f"{ident}: class Celsius(GenBox[float]), class Kelvin(GenBox[float]): (C==C, C==K, K==C, C==GenBox[float], "
+                     f"GenBox[float]==K, GenBox==C, C!=K) = {facts[1]!r}; expected (True, False, False, False, False, False, True)")
+            return
+        (ko, ro) = outcome(lambda: c1 < k1)
+        if ko == 'ok':
+            ctx.fail('order', 'derived-from-parametrization', f"{ident}: Celsius(1.0) < Kelvin(1.0) gave {ro!r}; instances of different classes are not ordered (TypeError)")
+            return
         # ... however the parametrization was arrived at: P[str, V][int] is P[str, int]
         P = _types.new_class('GenPair', (pane.PaneBase, t.Generic[_GT, _GU]), {'eq': eq, 'frozen': frozen, 'unsafe_hash': unsafe_hash},
                              lambda ns: ns.update({'__annotations__': {'x': _GT, 'y': _GU}}))
